@@ -474,7 +474,7 @@ def replay_cb21(job):
             evs.append(e)
             break
         evs.append(e)
-    return {"id": tid, "fam": fam, "ev": evs}
+    return {"id": tid, "fam": fam, "gen": beh.get("gen"), "ev": evs}
 
 
 def crashed(a, e, x):
@@ -603,7 +603,7 @@ def replay_cb1(job):
             evs.append(crashed(a, e, x))
             break
         evs.append(e)
-    return {"id": tid, "fam": "", "ev": evs}
+    return {"id": tid, "fam": "", "gen": beh.get("gen"), "ev": evs}
 
 
 # ------------------------------------------------------------------ key files: write, read by path, rewrite, read again
@@ -628,7 +628,7 @@ def replay_files(job):
             raise Machinery(f"action {a['a']}")
         evs.append(e)
     shutil.rmtree(d, ignore_errors=True)
-    return {"id": tid, "fam": "", "ev": evs}
+    return {"id": tid, "fam": "", "gen": beh.get("gen"), "ev": evs}
 
 
 # ------------------------------------------------------------------ sampled cases (beyond the menus of the generator)
@@ -804,6 +804,11 @@ def finding_key(t, matched, evname, why):
     return f"C03/{evname}/{why}"
 
 
+def lean_trace(t):
+    """What TLC gets: the events without the raw bytes (they stay in the witness)."""
+    return {"id": t["id"], "ev": [{k: x for k, x in e.items() if k != "hex"} for e in t["ev"]]}
+
+
 def slug(msg):
     """Exception class + the first words of its message: part of the finding key of a refused / crashed call."""
     cls, _, text = msg.partition(":")
@@ -813,7 +818,7 @@ def slug(msg):
 
 def slim(t):
     """Replay witness: the trace without the bulky terms."""
-    return {"id": t["id"], "fam": t.get("fam", ""), "ev": [{k: v for k, v in e.items() if k not in ("term", "rkth_term", "table_term")} for e in t["ev"]]}
+    return {"id": t["id"], "fam": t.get("fam", ""), "gen": t.get("gen"), "ev": [{k: v for k, v in e.items() if k not in ("term", "rkth_term", "table_term")} for e in t["ev"]]}
 
 
 def gen(mode, menu, depth, extra="none", workers=2, timeout=600):
@@ -849,7 +854,7 @@ def run(tier):
 
     # ---- sampled cases go through the generator too: TLC checks that they are in the asserted domain and emits their terms
     extra_file = os.path.join(sc, "c03-extra.ndjson")
-    extra = sampled_cases(r, 300 if quick else 3000, quick)
+    extra = sampled_cases(r, 300 if quick else 4000, quick)
     # family sweep: EVERY family of the database once through Rot (dispatch by rot type) and once through its CMPA / DAT path
     pinned = {}
     for (rot, kind), fams in sorted(families().items()):
@@ -885,8 +890,8 @@ def run(tier):
 
     ths = [bg("case", lambda: gen("case", menu, 1, extra_file, workers=2 if quick else 4, timeout=1500)),
            bg("cb21", lambda: gen("cb21", menu, 3, workers=2 if quick else 4, timeout=1500)),
-           bg("cb1", lambda: gen("cb1", menu, 3 if quick else 4, workers=1 if quick else 2)),
-           bg("files", lambda: gen("files", menu, 3 if quick else 5, workers=1 if quick else 2)),
+           bg("cb1", lambda: gen("cb1", menu, 3 if quick else 4, workers=1 if quick else 2, timeout=1500)),
+           bg("files", lambda: gen("files", menu, 3 if quick else 5, workers=1 if quick else 2, timeout=1500)),
            bg("mc", lambda: tlc.mc("C03", "RotMC", "RotMC.cfg", workers=2 if quick else 4, heap="6g", timeout=900,
                                    require_actions=("LCompute", "LWriteFile", "LReadByPath", "LBuild21", "LExport21", "LParse21", "LSetUserData",
                                                     "LSetConstraints", "LBuild1", "LExport1", "LParse1", "LSetImageLength"))),
@@ -906,9 +911,10 @@ def run(tier):
     say(f"[C03] GEN/MC done {v.timer.s()}s: " + ", ".join(f"{k}={res[k].distinct}" for k in ("case", "cb21", "cb1", "files", "mc")))
 
     cases = [(j["hist"][0]["c"], j["hist"][0]["term"]) for j in res["case"].json_prints() if j["mode"] == "case"]
-    behs = {m: [j for j in res[m].json_prints() if j["mode"] == m] for m in ("cb21", "cb1", "files")}
+    depths = {"cb21": 3, "cb1": 3 if quick else 4, "files": 3 if quick else 5}
+    behs = {m: [dict(j, gen=[menu, depths[m]]) for j in res[m].json_prints() if j["mode"] == m] for m in ("cb21", "cb1", "files")}
     if not quick:
-        behs["cb21"] += [j for j in res["cb21-deep"].json_prints() if j["mode"] == "cb21"]
+        behs["cb21"] += [dict(j, gen=["small", 5]) for j in res["cb21-deep"].json_prints() if j["mode"] == "cb21"]
     if len(cases) < 2000 or min(len(b) for b in behs.values()) < 50:
         raise Machinery(f"generator emitted too little: {len(cases)} cases, " + str({m: len(b) for m, b in behs.items()}))
     n_anchor = anchor_check(cases)
@@ -941,7 +947,7 @@ def run(tier):
 
     # ---- TV: TLC decides (the canary rides in the same batch)
     c0, t0 = next((c, t) for c, t in cases if c["rot"] == "cert_block_21" and len(c["keys"]) == 3 and c["path"] == "rkht")
-    lean = [{"id": t["id"], "ev": [{k: x for k, x in e.items() if k != "hex"} for e in t["ev"]]} for t in traces]
+    lean = [lean_trace(t) for t in traces]
     chunks = [lean[k:k + 5000] for k in range(0, len(lean), 5000)]
     chunks[0] = canary_traces(c0, t0) + chunks[0]
     rej, tv_states, tv_errs = {}, [0], []
@@ -1032,7 +1038,8 @@ def replay(path):
         raise_if = [e["a"] for e in t["ev"]]
         mode = "cb21" if "Build21" in raise_if else "cb1" if "Build1" in raise_if else "files"
         # find the generated behaviour with the same abstract actions
-        g = gen(mode, "full", max(3, len(t["ev"]) + 1), workers=4, timeout=1500)
+        gmenu, gdepth = t.get("gen") or ["small", 3]
+        g = gen(mode, gmenu, gdepth, workers=4, timeout=1500)
         want = [strip(e) for e in t["ev"]]
         cand = [b for b in g.json_prints() if b["mode"] == mode and [strip(e) for e in b["hist"][:len(want)]] == want]
         if not cand:
@@ -1040,8 +1047,9 @@ def replay(path):
         fn = {"cb21": replay_cb21, "cb1": replay_cb1, "files": replay_files}[mode]
         beh = dict(cand[0])
         beh["hist"] = beh["hist"][:len(want)]
-        new = fn((t["id"], beh, 0))
-    rej, _ = tlc.tv("C03", "RotTrace", [new])
+        fams = families()[("cert_block_21", "rot")]
+        new = fn((t["id"], beh, fams.index(t["fam"]) if t.get("fam") in fams else 0))
+    rej, _ = tlc.tv("C03", "RotTrace", [lean_trace(new)])
     if rej:
         (matched, length, evname, why) = list(rej.values())[0]
         say(f"VIOLATION property=C03 replay={path}")
@@ -1051,6 +1059,11 @@ def replay(path):
     return 0
 
 
+ARGS = {"Build21": ("keys", "used", "isk", "iskKey", "udLen", "cons"), "SetUserData": ("len",), "SetConstraints": ("cons",),
+        "Build1": ("keys", "used", "img", "build"), "SetImageLength": ("img",), "WriteFile": ("f", "k", "enc"),
+        "ReadByPath": ("rot", "files", "path", "used")}
+
+
 def strip(e):
-    return {k: v for k, v in e.items() if k in ("a", "keys", "used", "isk", "udLen", "cons", "len", "v", "img", "build", "f", "k", "enc", "rot", "files", "path")
-            and not (k == "len" and e["a"] != "SetUserData")}
+    """The abstract action of a logged event (name + arguments; observations dropped)."""
+    return {"a": e["a"], **{k: e[k] for k in ARGS.get(e["a"], ()) if k in e}}
